@@ -36,7 +36,14 @@ def variables(expr):
     return vs
 
 
-def kernel_cases(rng, n_ops, quick, shapes=None, metrics=False, pz=0.1):
+def negate_some(rng, t, p=0.4):
+    """values of both signs: partial sums cancel, an output element (or a whole output sub-fiber) returns to the default in the middle of a reduction"""
+    if t["k"] == "L":
+        return {"k": "L", "v": -t["v"] if rng.random() < p else t["v"]}
+    return {"k": "F", "e": [[c, negate_some(rng, q, p)] for c, q in t["e"]]}
+
+
+def kernel_cases(rng, n_ops, quick, shapes=None, metrics=False, pz=0.1, neg=False):
     cases = []
     for name, expr in SHAPES.items():
         if shapes and name not in shapes:
@@ -46,6 +53,24 @@ def kernel_cases(rng, n_ops, quick, shapes=None, metrics=False, pz=0.1):
             nc = rng.choice([2, 3])
             ext = {v: nc for v in vs}
             ops = {f["t"]: no_ghost_tree(rng, nc, len(f["ix"]), pz) for f in expr["facs"]}
+            if neg and rng.random() < 0.5:
+                ops = {k: negate_some(rng, v) for k, v in ops.items()}
+            if neg and len(expr["facs"]) > 1 and rng.random() < 0.35:
+                # whole output rows that cancel in the middle of a reduction: the first factor holds +-1 (some absent), the others are dense ones,
+                # so every element of an output row returns to the default in the same pass
+                def dense(depth, val):
+                    if depth == 0:
+                        return {"k": "L", "v": val()}
+                    return {"k": "F", "e": [[c, dense(depth - 1, val)] for c in range(nc)]}
+
+                def prune(t):
+                    if t["k"] == "L":
+                        return t
+                    e = [[c, prune(q)] for c, q in t["e"]]
+                    return {"k": "F", "e": [[c, q] for c, q in e if (q["k"] == "L" and q["v"] != 0) or (q["k"] == "F" and q["e"])]}
+                first = expr["facs"][0]
+                ops = {f["t"]: dense(len(f["ix"]), lambda: 1) for f in expr["facs"]}
+                ops[first["t"]] = prune(dense(len(first["ix"]), lambda: rng.choice([1, -1, 1, -1, 0])))
             if rng.random() < 0.08:
                 ops[rng.choice(list(ops))] = {"k": "F", "e": []}
             orders = list(itertools.permutations(vs))
@@ -80,7 +105,7 @@ def design(ctx):
 
 def run(ctx):
     dsg, states = design(ctx)
-    cases = kernel_cases(ctx.rng, 16 if ctx.quick else 150, ctx.quick)
+    cases = kernel_cases(ctx.rng, 64 if ctx.quick else 300, ctx.quick, neg=True)
     part = family.run_family(ctx, "C06", cases, "harness.exec_kernel", "KernelTrace.tla", "KernelTrace.cfg",
                              op_of=lambda c, lg, st: c["shape"], where_of=lambda c, lg, st: c["style"] + (":tiled" if c.get("tile") else ""),
                              beh_of=lambda c: {k: v for k, v in c.items() if k != "tid"},
